@@ -37,6 +37,8 @@ CONSTANTS
     Alphabet,     \* subset of action names
     Micro,        \* set of micro-batch counts a Train may use
     SchedArgs,    \* set of explicit scheduler step arguments (-1 = none given)
+    SaveArgs,     \* subset of BOOLEAN: include_factors values a Save may use
+    LoadArgs,     \* subset of BOOLEAN: compute_inverses values a Load may use
     Strict,       \* BOOLEAN: iteration discipline of distributed training --
                   \* passes only when no gradients are pending, everything
                   \* else (save, load, memory query, scheduler, reset) only at
@@ -291,8 +293,8 @@ Next ==
     \/ FwdOnly \/ EvalPass \/ ResetBatch
     \/ StepOK \/ StepRaises
     \/ \E a \in SchedArgs : SchedStep(a)
-    \/ \E b \in BOOLEAN : Save(b)
-    \/ \E b \in BOOLEAN : Load(b)
+    \/ \E b \in SaveArgs : Save(b)
+    \/ \E b \in LoadArgs : Load(b)
     \/ MemoryUsage
 
 Spec == Init /\ [][Next]_vars
